@@ -92,8 +92,12 @@ def coverage_report(ranges=None):
     return out
 
 
+_VOID = set()      # ids of histories that ran into an operation the statement does not pin down (see run_line)
+
+
 def new_state():
     start_coverage()
+    _VOID.clear()
     return []
 
 
@@ -277,6 +281,23 @@ def handles_ok(state, sx):
 
 
 def run_line(state, sx):
+    if id(state) in _VOID:
+        return 'void'
+    if sx[1] == 'relabel' and handles_ok(state, sx) and len(sx) == 6 and sx[4] == 'N':
+        # renaming ONTO a name the table already has (and does not rename away): which of the two columns survives depends on
+        # the column order, which for concatenations / records comes from a python set - outside the statement.  The generator
+        # avoids it through its shadow of the column names; this guard looks at the real table, so that a shadow slip can never
+        # turn into an alarm.  The rest of the history is not compared.
+        try:
+            cols = list(state[_h(sx[3])].keys())
+            mp = _dict(sx[5])
+            new = [mp.get(c, c) for c in cols]
+            if len(set(new)) < len(new):
+                _VOID.add(id(state))
+                EXTRA['colliding_relabel_histories_cut'] = EXTRA.get('colliding_relabel_histories_cut', 0) + 1
+                return 'void'
+        except Exception:
+            pass
     if not handles_ok(state, sx):
         return 'bad-op'
     try:
@@ -298,6 +319,8 @@ def run_line(state, sx):
 
 
 def compare(case, i, line, ir, mr):
+    if ir == 'void':
+        return None          # the history ran into a colliding relabel (outside the statement): not compared from there on
     # type-strict: no operation of the table API may turn an int cell into a float (or back); I:1 and F:1.0 differ
     if proto.same_reply(ir, mr, numeric=False):
         return None
